@@ -95,6 +95,25 @@ Definition C10_half : F := 1 / C10_two.
 (* strict comparison a < b as computed by the code (float >, <) *)
 Definition C10_ltb (a b : F) : bool := negb (kleb F b a).
 
+(* vocabulary of the loop skeletons as written in the three optimize methods (used by the REGENERATED text, gen/c10_py2coq.py) *)
+Inductive C10_mode := C10_SingleDiffLoss | C10_SumAbsDiffLoss | C10_SumAbsDiffVar | C10_SumAbsDiffProjGrad.   (* mode_stopping_criterion_gradient_descent *)
+Definition C10_absF (a : F) : F := if kleb F 0 a then a else 0 - a.                    (* np.abs *)
+Definition C10_vdiv (x : vec) (c : F) : vec := fun i => x i / c.                         (* x / c *)
+Definition C10_nrm2 (n : nat) (x : vec) : F := dot n x x.                                (* np.sum(x ** 2) *)
+Definition C10_lsum (l : list F) : F := fold_right (cadd F) 0 l.                         (* np.sum of a list of scalars *)
+
+(* the stopping rule shared by the three optimize methods: error value of the iteration by mode ([aux] = y_prev in backtracking,
+   x_next in momentum / FISTA — as coded), appended to the list (newest first here), window sum over the last h values, continue iff
+   the sum is > eps.  [sq] = np.sqrt (oracle) *)
+Definition C10_err_value (sq : F -> F) (n : nat) (f : vec -> F) (mode : C10_mode) (xp xn aux : vec) : F :=
+  match mode with
+  | C10_SingleDiffLoss => f xp - f xn
+  | C10_SumAbsDiffLoss => C10_absF (f xp - f xn)
+  | C10_SumAbsDiffVar => sq (C10_nrm2 n (vsub xp xn))
+  | C10_SumAbsDiffProjGrad => sq (C10_nrm2 n aux)
+  end.
+Definition C10_continue (h : nat) (eps : F) (errs : list F) : bool := negb (kleb F (C10_lsum (firstn h errs)) eps).
+
 (* ------------------------------------------------------------------ 2. calc_proj_physical (Dykstra), minimal *)
 Section Dykstra.
 Context (n : nat) (PA PB : vec -> vec) (eps : F).
@@ -160,6 +179,9 @@ Fixpoint C10_loop (fuel k : nat) (s : S) (hist : list vec) : S * list vec :=
   | Datatypes.S f => let s' := step k s in let h' := cur s' :: hist in
            if stop h' then (s', h') else C10_loop f (Datatypes.S k) s' h'
   end.
+(* the iterates without the stopping rule: step k, step (k+1), ... applied j times *)
+Fixpoint C10_steps (j k : nat) (s : S) : S :=
+  match j with O => s | Datatypes.S j' => C10_steps j' (Datatypes.S k) (step k s) end.
 (* max_iteration = 0: the code fails (k unbound; x_next is None) -> None *)
 Definition C10_run (maxit : nat) (s0 : S) : option (S * list vec) :=
   match maxit with O => None | Datatypes.S _ => Some (C10_loop maxit 1 s0 [cur s0]) end.
